@@ -660,6 +660,11 @@ func (r *reference) judge(o Op, res result) *failure {
 				return fail("file-present-unnamed-push-accepted", "unnamed push %s of content already present through a named file was accepted", o)
 			}
 			if !errors.Is(res.err, errdef.ErrAlreadyExists) {
+				if r.clobbered[string(d.Digest)] {
+					// the push went to the fallback storage, then Successors read the clobbered file back
+					r.content[r.key(d)] = stored{desc: d, bytes: b, node: o.Node}
+					return fail("file-name-alias-overwrite", "unnamed push %s => %v: the file this digest points to was overwritten through a second name for its path", o, res.err)
+				}
 				return fail("push-present", "push of present content %s returned %v", o, res.err)
 			}
 		default:
